@@ -19,7 +19,8 @@ from vlib import VERIF, CACHE, sh
 BASE = os.path.join(VERIF, "coq", "base")
 AREA = os.path.join(VERIF, "coq", "updateio")
 THEOREMS = ["C10_inplace", "C10_rebuilt", "C10_failure_untouched", "C10_histories", "C10_histories_same_pcm",
-            "C10_decision", "C10_driver_function_is_the_decision", "C10_no_panic", "C10_decision_examples"]
+            "C10_decision", "C10_driver_function_is_the_decision", "C10_no_panic", "C10_decision_examples",
+            "C10_hypotheses_satisfiable", "C10_file_examples"]
 QFLAGS = "-Q ../base FlacBase -Q . FlacUpdIo"
 
 
@@ -35,7 +36,7 @@ def proof_stage(chk, theorems, requires_extra=()):
 
 
 def build_driver(chk):
-    mdir = os.path.join(CACHE, "ocaml", "updateio")
+    mdir = os.path.join(CACHE, "ocaml", "updateio_%s" % chk.pid.lower())
     os.makedirs(mdir, exist_ok=True)
     for f in ("updateio_model.ml", "updateio_model.mli"):
         shutil.copy(os.path.join(AREA, f), mdir)
